@@ -570,4 +570,5 @@ func runC19(c *Ctx) {
 		}
 	}
 	c.verdictIf(good, P, "who-calls", "fn=AllowRequest", p.pos(ar.Pos()), "single combiner, single caller", why)
+	runC19GlobalPrivate(c, P)
 }
